@@ -126,11 +126,21 @@ var vTheDir *vDirFile
 
 func vOpenDirStub(s *Server, path string, flag int, mode os.FileMode) (file, error) { return vTheDir, nil }
 
+// The server's batch size (the literal 128 in respond) is scaled to 3, so that
+// full batches, short batches and several batches all occur with a handful of
+// entries; MaxFilelist - the request server's batch size - is arbitrary and must
+// not matter here (added after seeded change C16-c).
+//
 //verif:redirect (*github.com/pkg/sftp.Server).openfile vOpenDirStub
+//verif:constoverride (*github.com/pkg/sftp.sshFxpReaddirPacket).respond 128 3
 func vh_C16_server() {
 	vErrKinds = 0
 	vEnvReset()
 	vLoopRequests = 0
+	MaxFilelist = 2 // smaller than the batch
+	if vThorough() {
+		MaxFilelist = int64(1 + vChoice(4))
+	}
 	ents := vModelDir()
 	vTheDir = &vDirFile{dents: ents}
 	vTheDir.name, vTheDir.dir = "/d", true
